@@ -1,5 +1,7 @@
 import UscxmlVerif.Model.Large
 import UscxmlVerif.Spec.W3C
+import UscxmlVerif.Proofs.Select
+import UscxmlVerif.Proofs.CfgInv
 /-!
 # C01 — the interpreter follows the W3C SCXML step algorithm
 
@@ -8,6 +10,20 @@ import UscxmlVerif.Spec.W3C
 compiled interpreter on the full monitor alphabet and compares both with the specification.
 -/
 namespace UscxmlVerif.Properties.C01
-open UscxmlVerif
+open UscxmlVerif UscxmlVerif.Model UscxmlVerif.Model.Large
+
+/-- **partial** (pre-emption, Appendix D `removeConflictingTransitions`): whatever the chart, the configuration, the event
+and the outcome of the conditions, the transition set LargeMicroStep selects holds no two distinct transitions whose
+exit-set intervals overlap. Not covered by this theorem: that the intervals are the exit sets (document-order numbering:
+a state's descendants are the interval after it) and that the *first* enabled transition in document order wins - the
+comparison with `Spec.W3C.run` on generated charts decides those. -/
+theorem selection_conflict_free_partial (c : Chart) (config : List Nat) (ev : Option String) (pf : List Nat) (x : XS) :
+    ∀ i ∈ (Large.selectLoop c config ev pf { x := x }).transSet, ∀ j ∈ (Large.selectLoop c config ev pf { x := x }).transSet,
+      i ≠ j → overlaps (exitSet c (tr c i)) (exitSet c (tr c j)) = false :=
+  Proofs.Select.large_selection_conflict_free c config ev pf x
+
+/-- the relation is the intended one on a concrete pair: [2,3] and [3,5] overlap, [2,3] and [4,5] do not, an empty
+exit set (first = 0) overlaps nothing -/
+example : overlaps (2, 3) (3, 5) = true ∧ overlaps (2, 3) (4, 5) = false ∧ overlaps (0, 0) (0, 7) = false := by decide
 
 end UscxmlVerif.Properties.C01
